@@ -149,6 +149,32 @@ theorem draw_validation_failure_left_to_del (w : World) (animate : Bool) (loops 
     r.2.2 = some e ∧ (r.1.objs w.nObjs).finalized = false ∧ (r.1.objs w.nObjs).finCalls = 0 := by
   simp [drawP, initRender, run, Prog.do, target, apply]
 
+/-- `animate_leaves_data`: after every history, `_animate_` on data that is not the iterator's (made the
+    way `draw` makes it) — every frame count kind (definite, INDEFINITE, not animated), every `loops` /
+    `cache`, every fault plan (a frame render, a write, any exception class): when `_animate_` returns or
+    raises, the data's `finalized` flag is unchanged (false) and its finalizer has not run. -/
+theorem animate_leaves_data (fc : Nat) (h : List (Op × Flt)) (hadm : Adm false h) (it : Bool)
+    (loops : Int) (cache : CacheArg) (bound : Nat) (f : Flt) (hf : Admissible (injS false) f) :
+    let w := runHist (init fc) h
+    let r := run sem (animateP w.nObjs loops cache bound) f (apply (.newData .lib it false) w)
+    (r.1.objs w.nObjs).finalized = false ∧ (r.1.objs w.nObjs).finCalls = 0 := by
+  intro w
+  have key : Inv false w := inv_history false h _ (init_inv false fc) hadm
+  obtain ⟨h1, h2⟩ := fresh (s := false) it key.1
+  have hlt : ∀ j, j < (apply (.newData .lib it false) w).nIters →
+      ((apply (.newData .lib it false) w).iters j).data < w.nObjs := fun j hj => key.1.itLt j hj
+  have := wp_sound sem (injS false) _ f _ _ _ hf (animateP_spec loops cache bound f.isSome ⟨h1, h2⟩ hlt)
+  intro r
+  have hr : AP false w.nObjs r.1 := by
+    simp only [r]
+    generalize run sem (animateP w.nObjs loops cache bound) f (apply (.newData .lib it false) w) = q at this
+    obtain ⟨v, f', r'⟩ := q
+    cases r' <;> exact this
+  obtain ⟨x1, x2, -, -⟩ := hr.g.xLive _ rfl
+  have ha := hr.g.objA _ x1
+  rw [x2] at ha
+  exact ⟨x2, by simpa using ha⟩
+
 /-- `caller_kept`: data handed in with `finalize=False` (owner = caller) is never finalized by library
     code -/
 theorem caller_kept (fc : Nat) (h : List (Op × Flt)) (hadm : Adm false h) (d : Nat) :
